@@ -92,6 +92,13 @@ def run(ck):
             ck.ob("C04-R1", "Connection::%s/onDone-with-clean-parser" % name, not reached, e.loc, g,
                   "parser reset (or connection closed) before the connection is handed back" if not reached else
                   "the connection is handed back to the pool (onDone) on a path that never reset the response parser")
+    # handleError abandons whatever exchange was going on: it leaves a clean parser on every path, request in flight or not
+    he = lib.single(prog, CONN + "handleError")
+    bad = [x for x in cfg.exits_without(he, is_clean) if x.kind != "throw"]
+    ck.ob("C04-R1", "Connection::handleError/always-resets", not bad, he.loc, he,
+          "the parser is reset on every path" if not bad else
+          "handleError can return without resetting the parser (e.g. when no request is in flight): the remains of the failed response are "
+          "parsed as the beginning of the next one")
     # complete response parsed => parser reset, whether or not a request was waiting
     g = lib.single(prog, CONN + "handleResponsePacket")
     done_tests = [b for b in g.blocks.values() if b.term and b.term.get("k") == "if" and ("c:" + PB + "parse") in (b.term.get("refs") or [])
@@ -103,6 +110,31 @@ def run(ck):
         ck.ob("C04-R1", "Connection::handleResponsePacket/Done-resets", not bad, "%s:%s" % (g.file, b.term.get("l")), g,
               "a completely parsed response always resets the parser" if not bad else
               "a complete response parsed while no request is waiting leaves the parser in its Done state (the next response is parsed against it)")
+
+    # ---------------- R2 (premise): the generic reset reaches *every* step, whatever the progress of the abandoned message ----------------
+    pr_ = lib.single(prog, PB + "reset")
+    sr = [e for e in pr_.calls(lambda e: (e.get("callee") or "") == H + "Private::Step::reset")]
+    ck.require(sr, "ParserBase::reset does not call Step::reset")
+    for e in sr:
+        lp = cfg.innermost_loop(pr_, e.block)
+        ok = False
+        detail = "Step::reset is not called in a loop over the steps"
+        if lp is not None:
+            hdr = pr_.blocks[lp[0]]
+            t = hdr.term or {}
+            refs = t.get("refs") or []
+            if t.get("k") == "rangefor":
+                rng = [d for d in pr_.events("decl") if d.get("var", "").startswith("__range") and (d.get("init") or {}).get("f") == PB + "allSteps"]
+                ok = bool(rng)
+                detail = "range-for over allSteps" if ok else "range-for over something other than allSteps"
+            else:
+                bounded_by_progress = ("f:" + PB + "currentStep") in refs
+                whole = ("f:" + PB + "allSteps") in refs or "StepsCount" in (t.get("cond") or "")
+                ok = whole and not bounded_by_progress
+                detail = "index loop bounded by `%s`" % t.get("cond")
+                if bounded_by_progress:
+                    detail += ": steps at or beyond the current one (the body step of a message abandoned mid-body) are never reset"
+        ck.ob("C04-R2", "ParserBase::reset/covers-every-step", ok, e.loc, pr_, detail)
 
     # ---------------- R2 ----------------
     parse_roots = prog.find(PB + "parse", 1) + prog.find(PB + "feed", 1)
